@@ -19,6 +19,12 @@
 //                              FLUC = format(..).pipeline().filterCategory(<debug only>).sendToFile(p0, 1 GiB, 0).end().sendToFile(p1)
 //                              FLUB = format(..).sendToFile("/dev/full").sendToFile(p1)
 //              the k-th file sink in depth-first order writes <dir>/s<k>.log
+//              | q RotatingFileSink(limit 1000 bytes: rotates often) | Q the same, with a directory occupying the
+//                name of today's first rotated file (the rename fails, the sink goes on appending)
+//              front-ends ONEQ = configure(path, 1000, 0, None, false) with the blocked rotation name;
+//                ONEA1 = configure(path, .., async = true) then resetOwnThread(); ONEA2 = the same, then the event loop
+//                runs and quits (aboutToQuit stops the own thread): the logger has BECOME synchronous
+//     msgs   : f (no size) = an explicit gQtLogger.flush() between two messages (takes no message id)
 //     end    : fatal | kill
 //              | N a null HandlerPtr entry (appended through the initializer-list overload)
 //              | S a FunctionHandler that sleeps 2 s when called from a thread other than the main thread
@@ -36,6 +42,9 @@
 #endif
 #include <QCoreApplication>
 #include <QThread>
+#include <QTimer>
+#include <QDir>
+#include <QDate>
 #include <csignal>
 #include <string>
 #include <thread>
@@ -51,9 +60,11 @@ static std::string text_of(int id, int size)
     return s;
 }
 static int msg_id(const LogMessage &m) { return m.message().section(QLatin1Char(':'), 0, 0).toInt(); }
-struct Msg { char t; int size; };
-static void emit_msg(int id, const Msg &m)
+struct Msg { char t; int size; int id; };
+static void emit_msg(int, const Msg &m)
 {
+    const int id = m.id;
+    if (m.t == 'f') { gQtLogger.flush(); return; }   // an explicit flush() between two messages
     const std::string s = text_of(id, m.size);
     char t = m.t == 'm' ? "diwc"[id % 4] : m.t;
     if (t == 'z') {
@@ -91,8 +102,21 @@ int main(int argc, char **argv)
     int nsink = 0;
     auto path = [&]() { return dir + QStringLiteral("/s%1.log").arg(nsink++); };
 
+    const QString today = QDate::currentDate().toString(QStringLiteral("yyyy-MM-dd"));
+    // a directory that occupies the name the first rotation of today would use: the rename fails
+    auto block_rotation = [&](int k) { QDir().mkpath(dir + QStringLiteral("/s%1.%2.1.log").arg(k).arg(today)); };
     if (tree == "ONE") {
         gQtLogger.configure(path(), 0, 0, RotatingFileSink::Option::None, false);
+    } else if (tree == "ONEQ") { // one-line configuration with a small size limit; the first rotation's rename is blocked
+        block_rotation(0);
+        gQtLogger.configure(path(), 1000, 0, RotatingFileSink::Option::None, false);
+    } else if (tree == "ONEA1") { // configured asynchronous, made synchronous again before anything is logged
+        gQtLogger.configure(path(), 0, 0, RotatingFileSink::Option::None, /* async */ true);
+        gQtLogger.resetOwnThread();
+    } else if (tree == "ONEA2") { // configured asynchronous; the event loop ran and quit (aboutToQuit stops the own thread)
+        gQtLogger.configure(path(), 0, 0, RotatingFileSink::Option::None, /* async */ true);
+        QTimer::singleShot(0, &app, &QCoreApplication::quit);
+        app.exec();
     } else if (tree == "ONER") {
         gQtLogger.configure(path(), big, 0, RotatingFileSink::Option::None, false);
     } else if (tree == "FLU") {
@@ -130,6 +154,8 @@ int main(int argc, char **argv)
             case 'F': cur->append(FileSinkPtr::create(path())); break;
             case 'R': cur->append(RotatingFileSinkPtr::create(path(), big, 0)); break;
             case 'r': cur->append(RotatingFileSinkPtr::create(path(), 65536, 0)); break;
+            case 'q': cur->append(RotatingFileSinkPtr::create(path(), 1000, 0)); break;                // rotates every 1000 bytes
+            case 'Q': block_rotation(nsink); cur->append(RotatingFileSinkPtr::create(path(), 1000, 0)); break; // ... and its first rename fails
             case 'D': cur->append(RotatingFileSinkPtr::create(path(), 0, 0, RotatingFileSink::RotationDaily)); break;
             case 'N': { // a null entry: append(initializer_list) and Pipeline({..}) accept it, process() skips it
                 std::initializer_list<HandlerPtr> il = { HandlerPtr() };
@@ -164,6 +190,7 @@ int main(int argc, char **argv)
     }
 
     std::vector<Msg> msgs;
+    int nmsg = 0;
     if (ms != "-") {
         size_t i = 0;
         while (i < ms.size()) {
@@ -173,17 +200,17 @@ int main(int argc, char **argv)
             size_t star = it.find('*');
             int size = atoi(it.substr(1, star == std::string::npos ? std::string::npos : star - 1).c_str());
             int cnt = star == std::string::npos ? 1 : atoi(it.substr(star + 1).c_str());
-            for (int k = 0; k < cnt; k++) msgs.push_back({ t, size });
+            for (int k = 0; k < cnt; k++) { msgs.push_back({ t, size, t == 'f' ? -1 : nmsg }); if (t != 'f') nmsg++; }
             if (j == std::string::npos) break;
             i = j + 1;
         }
     }
-    const int k = (int)msgs.size();
+    const int k = (int)msgs.size();      // events (messages and explicit flushes); the fatal message gets id nmsg
     auto finish = [&]() {
         if (end == "kill") {
             raise(SIGKILL);
         } else {
-            const std::string s = text_of(k, fatalsize);
+            const std::string s = text_of(nmsg, fatalsize);
             qFatal("%s", s.c_str());
         }
     };
